@@ -640,6 +640,7 @@ package frugal
 //@ guard lib.fAdapterTransport.mu protects isOpen, closeChan, closeSignal
 //@   invariant self.isOpen ==> self.closeSignal != nil && clen(self.closeSignal) == 0 && ccap(self.closeSignal) == 1
 //@   invariant self.isOpen ==> self.closeChan != nil && clen(self.closeChan) == 0 && ccap(self.closeChan) == 1 && !cclosed(self.closeChan)
+//@   invariant !self.isOpen && self.closeChan != nil ==> cclosed(self.closeChan)   // a closed transport keeps publishing its one cause
 //@ immutable lib.fAdapterTransport.transport, lib.fAdapterTransport.registry
 
 //@ func lib.fAdapterTransport.Open(f)
@@ -846,3 +847,11 @@ package frugal
 //@   ensures ncalls("lib.FProcessor.Process") == 1 ==> fresh(outBuf) && fresh(output) && output.Buffer == outBuf
 //@   ensures ncalls("lib.FProcessor.Process") == 1 ==> cast(callarg("lib.FProtocolFactory.GetProtocol", 1, 1), "thrift.TMemoryBuffer") == output && callarg("lib.FProcessor.Process", 0, 2) == callret("lib.FProtocolFactory.GetProtocol", 1, 0) && callarg("lib.FProcessor.Process", 0, 1) == callret("lib.FProtocolFactory.GetProtocol", 0, 0)
 //@   modifies *
+
+// Each transport reports the limit it enforces (C12: the client sizes its buffer from this).
+//@ func lib.fNatsTransport.GetRequestSizeLimit(f)
+//@   ensures result == natsMaxMessageSize
+//@ func lib.fHTTPTransport.GetRequestSizeLimit(h)
+//@   ensures result == h.requestSizeLimit
+//@ func lib.fAdapterTransport.GetRequestSizeLimit(f)
+//@   ensures result == 0
